@@ -443,3 +443,259 @@ func genC09(cw *caseWriter, seed uint64, tier string) {
 		emitCast(cw, "C09", c, src, true)
 	}
 }
+
+// ---- C10 ---------------------------------------------------------------------------------
+
+type myInt int
+type myString string
+type myByte byte
+type myFloat float64
+type myBool bool
+type myStruct struct{ A int }
+type myBytes []byte
+type myHash [4]byte
+
+func c10Sources() []interface{} {
+	x := 5
+	s := "s"
+	t0 := time.Date(2021, 9, 24, 21, 21, 0, 0, time.UTC)
+	srcs := []interface{}{
+		nil,
+		int(0), int(-3), int(1 << 40), int64(0), int64(math.MinInt64), int64(1632518460), int32(7), int32(math.MaxInt32), int16(-2), int8(-128), int8(100),
+		uint(0), uint(math.MaxUint64), uint64(1 << 63), uint64(9), uint32(math.MaxUint32), uint32(3), uint16(65535), uint8(255), uint8(0),
+		float64(0), float64(1.5), float64(-2), float64(1e300), math.NaN(), math.Inf(1), float32(0.1), float32(-7), float32(3.4e38),
+		true, false,
+		"", "abc", "12", "-1", "1.5", "true", "2021-09-24", "2021-09-24T21:21:00Z", "2021-09-24T21:21:00+02:00", "1632518460", "AQ==", "NaN", "1e2", "0x10",
+		[]byte{}, []byte{1}, []byte{1, 0}, []byte{1, 0, 0, 0}, []byte{1, 0, 0, 0, 0, 0, 0, 0}, []byte("12"), []byte("true"), []byte("2021-09-24"), []byte("2021-09-24T21:21:00Z"), []byte{0xff, 0xfe, 0xfd},
+		json.Number(""), json.Number("0"), json.Number("12"), json.Number("-1.5"), json.Number("1e2"), json.Number("abc"), json.Number("9223372036854775808"),
+		t0, time.Unix(0, 0), time.Unix(-1, 5).In(time.FixedZone("", 19800)), time.Date(10000, 1, 1, 0, 0, 0, 0, time.UTC), time.Date(-5, 1, 1, 0, 0, 0, 0, time.UTC), time.Time{},
+		// outside the supported set
+		myInt(3), myString("x"), myByte(1), myFloat(1.5), myBool(true), myStruct{1}, &myStruct{1}, &x, &s, (*int)(nil), (*myStruct)(nil),
+		myBytes{1, 2}, myHash{1, 2, 3, 4},
+		[]int{1}, []string{"a"}, []interface{}{1, "a"}, []interface{}(nil), map[string]interface{}{"a": 1}, map[string]interface{}(nil), map[int]int{1: 2},
+		struct{}{}, func() {}, make(chan int), complex(1, 2), fmt.Errorf("e"), uintptr(1), [3]int{1, 2, 3}, [2]string{"a", "b"}, [2]myByte{1, 2}, [0]myByte{},
+	}
+	// byte arrays of every length 0-16
+	srcs = append(srcs, [0]byte{}, [1]byte{1}, [2]byte{1, 2}, [3]byte{1, 2, 3}, [4]byte{1, 2, 3, 4}, [5]byte{5}, [6]byte{6}, [7]byte{7}, [8]byte{1, 2, 3, 4, 5, 6, 7, 8},
+		[9]byte{9}, [10]byte{10}, [11]byte{11}, [12]byte{12}, [13]byte{13}, [14]byte{14}, [15]byte{15}, [16]byte{16})
+	return srcs
+}
+
+func genC10(cw *caseWriter, seed uint64, tier string) {
+	callees := append([]string{}, allCasters...)
+	for _, t := range tyNames {
+		callees = append(callees, "To:"+t)
+	}
+	callees = append(callees, "To:other")
+	for _, src := range c10Sources() {
+		for _, c := range callees {
+			emitCast(cw, "C10", c, src, true)
+		}
+	}
+	cw.extra["exhaustive"] = false
+}
+
+// ---- C11 ---------------------------------------------------------------------------------
+
+func fixedWidthValues(r *rng, tier string) []interface{} {
+	var out []interface{}
+	for v := math.MinInt8; v <= math.MaxInt8; v++ {
+		out = append(out, int8(v))
+	}
+	for v := 0; v <= math.MaxUint8; v++ {
+		out = append(out, uint8(v))
+	}
+	step := 257
+	if tier == "thorough" {
+		step = 1
+	}
+	for v := math.MinInt16; v <= math.MaxInt16; v += step {
+		out = append(out, int16(v))
+	}
+	for v := 0; v <= math.MaxUint16; v += step {
+		out = append(out, uint16(v))
+	}
+	out = append(out, int16(math.MaxInt16), uint16(math.MaxUint16), int16(-1), int16(256), uint16(256), uint16(255))
+	for _, b := range boundaryInts() {
+		neg, m := b[0] == 1, b[1]
+		if neg {
+			out = append(out, carriersOf(-int64(m-1)-1, true, 0)...)
+		} else {
+			out = append(out, carriersOf(0, false, m)...)
+		}
+	}
+	for _, f := range boundaryFloats64() {
+		out = append(out, f)
+	}
+	for _, f := range boundaryFloats32() {
+		out = append(out, f)
+	}
+	// NaN payload classes
+	for _, bits := range []uint64{0x7ff0000000000001, 0x7ff7ffffffffffff, 0x7ff8000000000000, 0x7fffffffffffffff, 0xfff0000000000001, 0xfff8000000000000, 0xffffffffffffffff} {
+		out = append(out, math.Float64frombits(bits))
+	}
+	for _, bits := range []uint32{0x7f800001, 0x7fbfffff, 0x7fc00000, 0x7fffffff, 0xff800001, 0xffc00000, 0xffffffff} {
+		out = append(out, math.Float32frombits(bits))
+	}
+	n := 2000
+	if tier == "thorough" {
+		n = 300000
+	}
+	for i := 0; i < n; i++ {
+		switch r.intn(8) {
+		case 0:
+			out = append(out, int64(r.u64()))
+		case 1:
+			out = append(out, r.u64())
+		case 2:
+			out = append(out, int32(r.u64()))
+		case 3:
+			out = append(out, uint32(r.u64()))
+		case 4:
+			out = append(out, int(r.u64()))
+		case 5:
+			out = append(out, uint(r.u64()))
+		case 6:
+			out = append(out, math.Float64frombits(r.u64()))
+		default:
+			out = append(out, math.Float32frombits(uint32(r.u64())))
+		}
+	}
+	out = append(out, true, false)
+	return out
+}
+
+var fixedWidthTys = []string{"int", "i64", "i32", "i16", "i8", "uint", "u64", "u32", "u16", "u8", "f64", "f32", "bool"}
+
+func genC11(cw *caseWriter, seed uint64, tier string) {
+	r := newRng(seed)
+	for _, v := range fixedWidthValues(r, tier) {
+		res, err, pan := emitCast(cw, "C11", "ToBinary", v, true)
+		if err == nil && pan == "" {
+			if b, ok := res.([]byte); ok {
+				// decode what was encoded, through cast.To with a sample of the source type
+				emitCast(cw, "C11", "To:"+tyName(v), b, true)
+			}
+		}
+	}
+	// every byte-slice length 0-17 for every fixed-width target; exhaustive contents for length <= 1,
+	// all 65536 two-byte contents in the thorough tier
+	for _, ty := range fixedWidthTys {
+		for n := 0; n <= 17; n++ {
+			reps := 6
+			for k := 0; k < reps; k++ {
+				b := make([]byte, n)
+				for j := range b {
+					switch k {
+					case 0:
+						b[j] = 0
+					case 1:
+						b[j] = 0xff
+					default:
+						b[j] = byte(r.u64())
+					}
+				}
+				emitCast(cw, "C11", "To:"+ty, b, true)
+			}
+		}
+		for v := 0; v < 256; v++ {
+			emitCast(cw, "C11", "To:"+ty, []byte{byte(v)}, true)
+		}
+		step := 251
+		if tier == "thorough" {
+			step = 1
+		}
+		for v := 0; v < 65536; v += step {
+			emitCast(cw, "C11", "To:"+ty, []byte{byte(v), byte(v >> 8)}, true)
+		}
+	}
+}
+
+// ---- C12 ---------------------------------------------------------------------------------
+
+// emitRT: render src with `via` (ToString / ToNumber), then cast the rendering back to the
+// source type.
+//
+//	rt \t C12 \t <via> \t <src> \t <ext> \t <impl text result> \t <impl back result>
+func emitRT(cw *caseWriter, via string, src interface{}) {
+	res, err, pan := callCast(via, src)
+	ext := map[string]string{}
+	extFor(src, ext)
+	back := "-"
+	if err == nil && pan == "" {
+		extFor(res, ext)
+		r2, e2, p2 := callCast("To:"+tyName(src), res)
+		back = resultStr(r2, e2, p2)
+	}
+	cw.count("via:" + via)
+	cw.count("src:" + tyName(src))
+	s := dynStr(src)
+	cw.emit("rt "+via+" "+s, true, "rt", "C12", via, s, extStr(ext), resultStr(res, err, pan), back)
+}
+
+func genC12(cw *caseWriter, seed uint64, tier string) {
+	r := newRng(seed)
+	var vals []interface{}
+	for v := math.MinInt8; v <= math.MaxInt8; v++ {
+		vals = append(vals, int8(v))
+	}
+	for v := 0; v <= math.MaxUint8; v++ {
+		vals = append(vals, uint8(v))
+	}
+	step := 257
+	if tier == "thorough" {
+		step = 1
+	}
+	for v := math.MinInt16; v <= math.MaxInt16; v += step {
+		vals = append(vals, int16(v))
+	}
+	for v := 0; v <= math.MaxUint16; v += step {
+		vals = append(vals, uint16(v))
+	}
+	for _, b := range boundaryInts() {
+		neg, m := b[0] == 1, b[1]
+		if neg {
+			vals = append(vals, carriersOf(-int64(m-1)-1, true, 0)...)
+		} else {
+			vals = append(vals, carriersOf(0, false, m)...)
+		}
+	}
+	// floats: every binade boundary, subnormals, extremes, shortest-repr corner cases
+	for e := -1074; e <= 1023; e++ {
+		x := math.Ldexp(1, e)
+		vals = append(vals, x, -x, nextFloat64(x, -1), nextFloat64(x, 1))
+	}
+	for e := -149; e <= 127; e++ {
+		x := float32(math.Ldexp(1, e))
+		vals = append(vals, x, -x, nextFloat32(x, -1), nextFloat32(x, 1))
+	}
+	vals = append(vals, 0.0, math.Copysign(0, -1), float32(0), float32(math.Copysign(0, -1)), 0.1, float32(0.1), 0.3, 1e21, 1e22, 1e23, 5e-324, 1.7976931348623157e308,
+		9007199254740993.0, 9007199254740992.0, float32(16777216), float32(16777217), float32(3.4028235e38), float32(1e-45), 2.2250738585072014e-308, 2.225073858507201e-308,
+		123456789012345678.0, 0.000001, 0.0000001, 1e-7, 123456.789e3, float32(1e21), float32(8.5e-6),
+		math.NaN(), math.Inf(1), math.Inf(-1), float32(math.NaN()), float32(math.Inf(1)), float32(math.Inf(-1)))
+	n := 3000
+	if tier == "thorough" {
+		n = 300000
+	}
+	for i := 0; i < n; i++ {
+		switch r.intn(6) {
+		case 0:
+			vals = append(vals, int64(r.u64())>>uint(r.intn(64)))
+		case 1:
+			vals = append(vals, r.u64()>>uint(r.intn(64)))
+		case 2:
+			vals = append(vals, int32(r.u64()))
+		case 3:
+			vals = append(vals, math.Float64frombits(r.u64()))
+		case 4:
+			vals = append(vals, math.Float32frombits(uint32(r.u64())))
+		default:
+			vals = append(vals, float64(int64(r.u64()>>uint(r.intn(40))))/math.Pow(10, float64(r.intn(8))))
+		}
+	}
+	vals = append(vals, true, false)
+	for _, v := range vals {
+		emitRT(cw, "ToString", v)
+		emitRT(cw, "ToNumber", v)
+	}
+}
